@@ -40,21 +40,41 @@ Qed.
 Lemma QQ_from : forall fl s s0 s', topen s0 = topen s -> queue s0 = queue s -> QQ fl s0 s' -> QQ fl s s'.
 Proof. intros fl s s0 s' Ht Hq H. eapply QQ_trans; [apply QQ_same; eassumption | exact H]. Qed.
 
-Lemma QQ_complete : forall fl s f r, QQ fl s (fst (complete fl s f r)).
+Lemma api_step_tq : forall cfg s o, topen (fst (api_step cfg s o)) = topen s /\ queue (fst (api_step cfg s o)) = queue s.
+Proof.
+  intros cfg s o. destruct o; try (split; reflexivity); unfold api_step.
+  - destruct (negb (transport s)); [split; reflexivity|]. unfold new_request. cbv zeta beta iota.
+    destruct (send cfg _ _) as [o1 ok]. destruct ok; split; reflexivity.
+  - destruct (negb (transport s)); [split; reflexivity|]. destruct (po_wants_ack o); unfold new_request, new_id_only; cbv zeta beta iota;
+      destruct (send cfg _ _) as [o1 ok]; destruct ok; split; reflexivity.
+  - destruct (negb (transport s)); [split; reflexivity|]. unfold new_request. cbv zeta beta iota.
+    destruct (send cfg _ _) as [o1 ok]. split; reflexivity.
+  - destruct (negb (transport s)); [split; reflexivity|]. unfold new_request. cbv zeta beta iota.
+    destruct (send cfg _ _) as [o1 ok]. split; reflexivity.
+  - destruct (reg_id_of s h) as [regid|]; [|split; reflexivity]. destruct (assoc regid (regs s)) as [h'|]; [|split; reflexivity].
+    destruct (negb (h' =? h)); [split; reflexivity|]. destruct (negb (transport s)); [split; reflexivity|].
+    unfold new_request. cbv zeta beta iota. destruct (send cfg _ _) as [o1 ok]. split; reflexivity.
+Qed.
+
+Lemma react_tq : forall cfg s f, topen (fst (react cfg s f)) = topen s /\ queue (fst (react cfg s f)) = queue s.
+Proof. intros. unfold react. destruct (assoc f (reacts s)); [apply api_step_tq | split; reflexivity]. Qed.
+
+Lemma QQ_complete : forall fl cfg s f r, QQ fl s (fst (complete fl cfg s f r)).
 Proof.
   intros. unfold complete. destruct (is_done s f); [apply QQ_refl|]. destruct fl; simpl.
-  - apply QQ_same; reflexivity.
+  - destruct (react_tq cfg (set_done s (done s ++ [(f, r)])) f) as [A B].
+    destruct (react cfg (set_done s (done s ++ [(f, r)])) f) as [s2 o2]. simpl in *. apply QQ_same; assumption.
   - split; [reflexivity|]. exists [TLeaf (LUserDone f r)]. split; [reflexivity | repeat constructor].
 Qed.
 
-Lemma QQ_errback_list : forall fl e l s, QQ fl s (fst (errback_list fl s e l)).
+Lemma QQ_errback_list : forall fl cfg e l s, QQ fl s (fst (errback_list fl cfg s e l)).
 Proof.
   induction l as [|r t IH]; simpl; intro s; [apply QQ_refl|].
-  pose proof (QQ_complete fl s (r_fut r) (RErr e)) as H1. destruct (complete fl s (r_fut r) (RErr e)) as [s1 o1].
-  specialize (IH s1). destruct (errback_list fl s1 e t) as [s2 o2]. simpl in *. eapply QQ_trans; eassumption.
+  pose proof (QQ_complete fl cfg s (r_fut r) (RErr e)) as H1. destruct (complete fl cfg s (r_fut r) (RErr e)) as [s1 o1].
+  specialize (IH s1). destruct (errback_list fl cfg s1 e t) as [s2 o2]. simpl in *. eapply QQ_trans; eassumption.
 Qed.
 
-Lemma QQ_errback_all : forall fl s e, QQ fl s (fst (errback_all fl s e)).
+Lemma QQ_errback_all : forall fl cfg s e, QQ fl s (fst (errback_all fl cfg s e)).
 Proof. intros. unfold errback_all. eapply QQ_from; [| |apply QQ_errback_list]; reflexivity. Qed.
 
 Lemma QQ_pop_reply : forall fl s k rq found,
@@ -65,7 +85,7 @@ Proof.
   destruct (is_done _ _); [apply QQ_same; reflexivity | apply H; reflexivity].
 Qed.
 
-Lemma QQ_complete_from : forall fl s s1 f r, topen s1 = topen s -> queue s1 = queue s -> QQ fl s (fst (complete fl s1 f r)).
+Lemma QQ_complete_from : forall fl cfg s s1 f r, topen s1 = topen s -> queue s1 = queue s -> QQ fl s (fst (complete fl cfg s1 f r)).
 Proof. intros. eapply QQ_from; [eassumption | eassumption | apply QQ_complete]. Qed.
 
 Lemma QQ_yield : forall fl cfg s rq, QQ fl s (fst (defer_leaf fl cfg s (LYield rq))).
@@ -98,36 +118,28 @@ Qed.
 
 Lemma QQ_api : forall fl cfg s o, is_quiet_api o = true -> QQ fl s (fst (step fl cfg s o)).
 Proof.
-  intros fl cfg s o Hq. destruct o; try discriminate; clear Hq; unfold step; cbv beta iota.
-  - destruct (negb (transport s)); [apply QQ_refl|]. unfold new_request. cbv zeta beta iota.
-    destruct (send cfg _ _) as [o1 ok]. destruct ok; apply QQ_same; reflexivity.
-  - destruct (negb (transport s)); [apply QQ_refl|]. destruct (po_wants_ack o); unfold new_request, new_id_only; cbv zeta beta iota;
-      destruct (send cfg _ _) as [o1 ok]; destruct ok; apply QQ_same; reflexivity.
-  - destruct (negb (transport s)); [apply QQ_refl|]. unfold new_request. cbv zeta beta iota.
-    destruct (send cfg _ _) as [o1 ok]. apply QQ_same; reflexivity.
-  - destruct (negb (transport s)); [apply QQ_refl|]. unfold new_request. cbv zeta beta iota.
-    destruct (send cfg _ _) as [o1 ok]. apply QQ_same; reflexivity.
+  intros fl cfg s o Hq.
+  assert (Hapi : QQ fl s (fst (api_step cfg s o))) by (destruct (api_step_tq cfg s o); now apply QQ_same).
+  destruct o; try discriminate; clear Hq; try exact Hapi; clear Hapi; unfold step; cbv beta iota.
   - destruct (sub_id_of s h) as [subid|]; [|apply QQ_refl]. destruct (negb (memN h _)); [apply QQ_refl|].
     destruct (negb (transport s)); [apply QQ_refl|].
     destruct (remove1 h match assoc subid (subs s) with Some l => l | None => [] end) as [|x rest'].
     + unfold new_request. cbv zeta beta iota. destruct (send cfg _ _) as [o1 ok]. apply QQ_same; reflexivity.
-    + match goal with |- context [complete fl ?S ?F ?R] =>
-        pose proof (QQ_complete fl S F R) as Hc; destruct (complete fl S F R) as [s2 o2] end.
+    + match goal with |- context [complete fl cfg ?S ?F ?R] =>
+        pose proof (QQ_complete fl cfg S F R) as Hc; destruct (complete fl cfg S F R) as [s2 o2] end.
       simpl in *. eapply QQ_from; [| |exact Hc]; reflexivity.
-  - destruct (reg_id_of s h) as [regid|]; [|apply QQ_refl]. destruct (assoc regid (regs s)) as [h'|]; [|apply QQ_refl].
-    destruct (negb (h' =? h)); [apply QQ_refl|]. destruct (negb (transport s)); [apply QQ_refl|].
-    unfold new_request. cbv zeta beta iota. destruct (send cfg _ _) as [o1 ok]. apply QQ_same; reflexivity.
   - destruct (is_done s f); [apply QQ_refl|]. destruct (assoc f (issued s)) as [[k id]|]; [|apply QQ_refl].
     destruct fl.
-    + assert (Hc : QQ Tx s (fst (let '(s1, o2) := complete Tx s f (RErr ECancelled) in (s1, o2 ++ [ApiReturned None])))).
-      { pose proof (QQ_complete Tx s f (RErr ECancelled)) as Hc. destruct (complete Tx s f (RErr ECancelled)). exact Hc. }
+    + assert (Hc : QQ Tx s (fst (let '(s1, o2) := complete Tx cfg s f (RErr ECancelled) in (s1, o2 ++ [ApiReturned None])))).
+      { pose proof (QQ_complete Tx cfg s f (RErr ECancelled)) as Hc. destruct (complete Tx cfg s f (RErr ECancelled)). exact Hc. }
       destruct k; try exact Hc. destruct (transport s); [|apply QQ_refl].
       destruct (send cfg s (MCancel id)) as [o1 ok]. destruct ok; [|apply QQ_refl].
-      pose proof (QQ_complete Tx s f (RErr ECancelled)) as Hc2. destruct (complete Tx s f (RErr ECancelled)). exact Hc2.
+      pose proof (QQ_complete Tx cfg s f (RErr ECancelled)) as Hc2. destruct (complete Tx cfg s f (RErr ECancelled)). exact Hc2.
     + destruct k; simpl; (split; [reflexivity|]);
         try (exists [TLeaf (LUserDone f (RErr ECancelled))]; split; [reflexivity | repeat constructor]).
       exists [TLeaf (LCancelSend id); TLeaf (LUserDone f (RErr ECancelled))]. split; [|repeat constructor].
       unfold enqueue. simpl. rewrite <- app_assoc. reflexivity.
+  - destruct (is_react_op o && negb (is_done s f) && isNoneB (assoc f (reacts s))); apply QQ_same; reflexivity.
 Qed.
 
 (* ---- running scheduled callbacks (asyncio) ---- *)
@@ -148,7 +160,8 @@ Lemma run_semi_one : forall cfg s t, semi t ->
 Proof.
   intros cfg s t [Hi| ->].
   - destruct t as [l| | |]; try contradiction. destruct l; try contradiction; simpl.
-    + repeat split; reflexivity.
+    + pose proof (LQ_react cfg s f) as [A B]. destruct (react_tq cfg s f) as [C D].
+      destruct (react cfg s f) as [s2 o2]. simpl in *. repeat split; assumption.
     + destruct raised; repeat split; reflexivity.
     + destruct raised; repeat split; reflexivity.
     + destruct (transport s); [|repeat split; reflexivity].
@@ -205,8 +218,8 @@ Lemma aio_leave_then : forall cfg s rs,
   /\ exists Q, queue (fst r) = queue s ++ Q /\ leave_queue cfg Q.
 Proof.
   intros cfg s rs. unfold do_onLeave, leave_queue. destruct (u_leave_super cfg).
-  - pose proof (LQ_errback_all Aio s (ELeave rs)) as [A1 B1]. pose proof (QQ_errback_all Aio s (ELeave rs)) as [T1 [Q1 [E1 F1]]].
-    destruct (errback_all Aio s (ELeave rs)) as [s1 o1]. simpl in *.
+  - pose proof (LQ_errback_all Aio cfg s (ELeave rs)) as [A1 B1]. pose proof (QQ_errback_all Aio cfg s (ELeave rs)) as [T1 [Q1 [E1 F1]]].
+    destruct (errback_all Aio cfg s (ELeave rs)) as [s1 o1]. simpl in *.
     rewrite !app_nil_r, A1. repeat split; try assumption.
     exists (Q1 ++ [TLeaf LLeaveDisconnect] ++ [TLeaf (LLeaveK (u_leave_raises cfg))]).
     destruct (inert_semi Q1 F1) as [S1 N1]. split; [|split].
@@ -223,8 +236,8 @@ Lemma tx_leave_topen : forall cfg s rs,
   topen (fst r) = (if u_leave_super cfg && transport s then false else topen s) /\ queue (fst r) = queue s.
 Proof.
   intros cfg s rs. unfold do_onLeave. destruct (u_leave_super cfg); [|simpl; destruct (u_leave_raises cfg); split; reflexivity].
-  pose proof (LQ_errback_all Tx s (ELeave rs)) as [A1 B1]. pose proof (QQ_errback_all Tx s (ELeave rs)) as [T1 Q1].
-  destruct (errback_all Tx s (ELeave rs)) as [s1 o1]. simpl in *.
+  pose proof (LQ_errback_all Tx cfg s (ELeave rs)) as [A1 B1]. pose proof (QQ_errback_all Tx cfg s (ELeave rs)) as [T1 Q1].
+  destruct (errback_all Tx cfg s (ELeave rs)) as [s1 o1]. simpl in *.
   assert (Htr : transport s1 = transport s) by (unfold lcore in B1; inversion B1; reflexivity).
   rewrite Htr. destruct (transport s); simpl; destruct (u_leave_raises cfg); simpl; split; congruence.
 Qed.
@@ -235,8 +248,8 @@ Lemma any_onDisconnect : forall fl cfg s,
   levs (snd r) = [LvDisconnect] /\ lcore (fst r) = lcore s /\ QQ fl s (fst r).
 Proof.
   intros fl cfg s. unfold do_onDisconnect. destruct (u_disc_super cfg).
-  - pose proof (LQ_errback_all fl s ETransportLost) as [A1 B1]. pose proof (QQ_errback_all fl s ETransportLost) as H1.
-    destruct (errback_all fl s ETransportLost) as [s1 o1]. simpl in *.
+  - pose proof (LQ_errback_all fl cfg s ETransportLost) as [A1 B1]. pose proof (QQ_errback_all fl cfg s ETransportLost) as H1.
+    destruct (errback_all fl cfg s ETransportLost) as [s1 o1]. simpl in *.
     destruct fl; simpl.
     + destruct (u_disc_raises cfg); simpl; rewrite levs_app, A1; (split; [reflexivity | split; [assumption | exact H1]]).
     + rewrite app_nil_r, A1. split; [reflexivity | split; [assumption|]]. eapply QQ_trans; [exact H1|].
